@@ -30,7 +30,7 @@ RTOL = 1e-5
 def gen_cases(tier, seed):
     rng = np.random.default_rng(seed + 51)
     cases = []
-    nrand = 2 if tier == "quick" else 40
+    nrand = 2 if tier == "quick" else 120
     for fam in zoo.ALL_FAMS:
         cfgs = zoo.configs([fam], tier, seed + 17, nrand)
         for ci, cfg in enumerate(cfgs):
@@ -46,14 +46,14 @@ def gen_cases(tier, seed):
                 c2 = dict(cfg, cache=True)
                 cases.append(dict(cases[-1], cfg=c2, mode="eval", inputs_only=True))
                 cases.append(dict(cases[-1], cfg=c2, mode="eval", pre="inverse_first", inputs_only=True))
-    for i in range(30 if tier == "quick" else 800):
+    for i in range(30 if tier == "quick" else 2400):
         cfg = dzoo.sample_flow_cfg(rng)
         if "parts" in cfg:
             cfg["parts"] = [_smooth(p) for p in cfg["parts"]]
         cases.append({"kind": "flow", "cfg": cfg, "mode": "eval" if i % 2 else "train", "policy": "randn0.3",
                       "seed": env.subseed(seed, "c16f", i), "world": "f64", "tier_": tier, "cost": 5})
     # library distributions: log_prob must be differentiable w.r.t. parameters, inputs and context
-    for i in range(20 if tier == "quick" else 400):
+    for i in range(20 if tier == "quick" else 1500):
         dc = dzoo.sample_dist_cfg(rng, [["cond_diag", "mademog", "mademog", "diag", "bernoulli"][i % 5]])
         if dc["dist"] == "mademog":
             dc["narrow"] = False
